@@ -181,15 +181,36 @@ class FakeConnection(Obj):
 
     local_ip = "127.0.0.1"
     remote_ip = "127.0.0.1"
+    world = None
+    gets = 0
 
     def close(self):
         self.open = False
+
+    # requests the AirPlay player / protocol objects send directly on the connection
+    async def post(self, path, headers=None, body=None, allow_error=False):
+        from pyatv.support.http import HttpResponse
+
+        await self.world.plan.point("conn.post")
+        return HttpResponse("HTTP", "1.1", 200, "OK", {}, b"")
+
+    async def get(self, path, headers=None, allow_error=False):
+        import plistlib
+
+        from pyatv.support.http import HttpResponse
+
+        await self.world.plan.point("conn.get")
+        self.gets += 1      # first poll: playing (has a duration); second poll: playback ended
+        body = plistlib.dumps({"duration": 1.0}, fmt=plistlib.FMT_BINARY) if self.gets == 1 else b""
+        return HttpResponse("HTTP", "1.1", 200, "OK", {}, body)
 
 
 def make_http_connect(world, kind):
     async def http_connect(address, port):
         await world.plan.point(f"http_connect:{kind}")
-        return world.add(kind, FakeConnection())
+        conn = world.add(kind, FakeConnection())
+        conn.world = world
+        return conn
 
     return http_connect
 
@@ -259,11 +280,15 @@ def make_stream_client(world, info):
             self.connection = connection
 
         async def _req(self, name):
-            plan = world.plan
-            if plan.op_task is not None and asyncio.current_task() is not plan.op_task:
-                await asyncio.sleep(0)
+            co = getattr(asyncio.current_task().get_coro(), "__qualname__", "")
+            if "_feedback_task_loop" in co or "_send_keep_alive" in co:
+                await asyncio.sleep(0)      # a background task of the protocol object asks
                 return
-            await plan.point("rtsp." + name)
+            await world.plan.point("rtsp." + name)
+
+        async def exchange(self, method, uri=None, **kwargs):
+            await self._req("exchange")
+            return response()
 
         async def info(self):
             await self._req("info")
@@ -324,6 +349,7 @@ def make_stream_client(world, info):
         async def _stream_data(self, source, transport):
             await world.plan.point("client.stream_data")
 
+    world.FakeRtsp = FakeRtsp
     return HalfRealStreamClient
 
 
@@ -396,15 +422,34 @@ def make_web_server(world):
     return FakeWebServer
 
 
-def make_player(world):
-    class FakePlayer:
-        def __init__(self, rtsp, stream_protocol):
+def make_play_loop_patch(world, patches):
+    """The real AirPlayPlayer opens its timing server with the running loop's
+    create_datagram_endpoint: ledger-recording fake (`ptiming`)."""
+    loop = asyncio.get_running_loop()
+
+    class PlayTimingTransport(Obj):
+        def close(self):
+            self.open = False
+
+        def get_extra_info(self, key):
+            class Sock:
+                @staticmethod
+                def getsockname():
+                    return ("127.0.0.1", 4005)
+            return Sock()
+
+        def sendto(self, data, addr=None):
             pass
 
-        async def play_url(self, url, position=0):
-            await world.plan.point("player.play_url")
+    async def create_datagram_endpoint(factory, **kwargs):
+        proto = factory()
+        await world.plan.point("udp_endpoint:ptiming")
+        transport = world.add("ptiming", PlayTimingTransport())
+        proto.connection_made(transport)
+        return transport, proto
 
-    return FakePlayer
+    loop.create_datagram_endpoint = create_datagram_endpoint
+    patches.saved.append((loop, "create_datagram_endpoint", None))
 
 
 class FakeSessionManager(Obj):
@@ -432,6 +477,9 @@ class Patches:
 
     def undo(self):
         for obj, name, value in reversed(self.saved):
+            if value is None and name == "create_datagram_endpoint":
+                obj.__dict__.pop(name, None)
+                continue
             setattr(obj, name, value)
         self.saved = []
 
@@ -449,7 +497,7 @@ def protocol_order():
 CONNECT_STEPS = ["connect", "register", "features", "device_info"]
 
 
-async def run_connect(subset, fault=None, delays=None, closes=None):
+async def run_connect(subset, fault=None, delays=None, closes=None, lost=None):
     """pyatv.connect with the protocols in `subset` (indices into PROTOCOLS order).  Per
     protocol the facade calls four things the protocol supplies: `await connect()` (which
     takes `delays[pos]` seconds of virtual time and then establishes a connection plus a
@@ -458,6 +506,8 @@ async def run_connect(subset, fault=None, delays=None, closes=None):
     the pos-th protocol (set-up order) fail / be cancelled.  After connect() has returned
     or raised, the ledger is observed at once (`ledger_at_return`) and again after the loop
     has been drained (virtual time past every delay).  `closes[pos]` scripts the protocol's
+    `lost = pos`: right after it has connected, that protocol reports (as the real connections
+    do) `device_listener.listener.connection_lost(...)` while connect() is still under way.
     close(): "sync" (closed inside close()), "late" (close() returns a task that needs virtual
     time before the connection is closed), "raise" (the close task closes and then raises)."""
     import pyatv
@@ -503,6 +553,9 @@ async def run_connect(subset, fault=None, delays=None, closes=None):
             conn = {}
 
             async def _connect():
+                if isinstance(lost, list) and idx in subset and subset.index(idx) == lost[0] + 1:
+                    # the previous protocol's connection drops while this one is connecting
+                    core.device_listener.listener.connection_lost(ConnectionResetError("lost during connect"))
                 if delay:
                     await asyncio.sleep(delay)
                 await plan.point(f"connect:{idx}")
@@ -515,6 +568,8 @@ async def run_connect(subset, fault=None, delays=None, closes=None):
                 t.task = asyncio.ensure_future(background())
                 t.task.add_done_callback(lambda _f: setattr(t, "open", False))
                 conn["t"] = world.add(f"task{idx}", t)
+                if isinstance(lost, int) and idx in subset and subset.index(idx) == lost:
+                    core.device_listener.listener.connection_lost(ConnectionResetError("lost during connect"))
                 return True
 
             def _close():
@@ -643,7 +698,8 @@ class Rig:
         p.set(raop, "get_protocol_version", get_protocol_version)
         p.set(airplay, "http_connect", make_http_connect(w, "playConn"))
         p.set(airplay, "StaticFileWebServer", make_web_server(w))
-        p.set(airplay, "AirPlayPlayer", make_player(w))
+        p.set(airplay, "RtspSession", lambda connection: w.FakeRtsp(connection))   # AirPlayPlayer + protocol objects are real
+        make_play_loop_patch(w, p)
         p.set(airplay.net, "get_local_address_reaching", lambda addr: "127.0.0.1")
 
         config = conf.AppleTV("127.0.0.1", "verif")
@@ -654,7 +710,10 @@ class Rig:
         if self.raop_props is not None:
             props = dict(self.raop_props)
         raop_service = conf.ManualService("raopid", Protocol.RAOP, 7000, props)
-        airplay_service = conf.ManualService("airplayid", Protocol.AirPlay, 7000, {})
+        aflag = int(AirPlayFlags.SupportsUnifiedMediaControl | AirPlayFlags.SupportsAirPlayVideoV2)
+        aprops = {"features": "0x%08X,0x%X" % (aflag & 0xFFFFFFFF, aflag >> 32)} if self.v2 else \
+            {"features": "0x%08X,0x0" % int(AirPlayFlags.SupportsAirPlayVideoV1)}
+        airplay_service = conf.ManualService("airplayid", Protocol.AirPlay, 7000, aprops)
         config.add_service(raop_service)
         config.add_service(airplay_service)
         settings = Settings()
@@ -731,7 +790,7 @@ def op_name(op, vol_known=True):
     vol_known, v2 = cfg(vol_known)
     if op[0] == "stream":
         return "stream:%d%d%d" % (1 if vol_known else 0, 1 if op[1] else 0, 1 if v2 else 0)
-    return "play:%d" % (1 if op[1] else 0)
+    return "play:%d%d" % (1 if op[1] else 0, 1 if v2 else 0)
 
 
 def stray(before):
@@ -849,14 +908,20 @@ def csv(xs):
 
 STREAM_CFGS = [[True, False], [False, False], [True, True], [False, True]]
 PLAY_CFG = [True, False]
+PLAY_CFGS = [[True, False], [True, True]]
 
 
 def variants(cfgs=None):
     """(op, cfg): the script variants (the receiver configuration only matters for stream_file)."""
     out = []
     for op in OPS:
-        for c in ((cfgs or STREAM_CFGS) if op[0] == "stream" else (PLAY_CFG,)):
-            out.append((op, c))
+        if op[0] == "stream":
+            for c in (cfgs or STREAM_CFGS):
+                out.append((op, c))
+        else:
+            for c in PLAY_CFGS:
+                if cfgs is None or any(x[1] == c[1] for x in cfgs):
+                    out.append((op, c))
     return out
 
 
@@ -867,7 +932,7 @@ def evaluate(case):
         from harness.core import vloop
 
         fault = tuple(case["fault"]) if case["fault"] else None
-        obs = vloop.run(run_connect, case["subset"], fault, case.get("delays"), case.get("closes"))
+        obs = vloop.run(run_connect, case["subset"], fault, case.get("delays"), case.get("closes"), case.get("lost"))
         mfault = (4 * fault[0] + fault[1], fault[2]) if fault else None
         return obs, [f"run connect:{csv([str(i) for i in case['subset']])} - {fault_str(mfault)}"]
     if fam == "single":
@@ -1038,6 +1103,9 @@ def compare(ctx, case, obs, answers):
         if m != impl:
             ctx.disagree(case, impl, ans, where=where)
 
+    if fam == "connect" and case.get("lost") is not None:
+        ctx.note("connect:lost-during-connect")     # early close by the device listener: oracle only
+        return
     if fam in ("connect", "single"):
         cmp_run(answers[0], obs, fam, (case["fault"] or [None])[-1] if case["fault"] else None)
     elif fam == "overlap":
@@ -1109,6 +1177,15 @@ def gen_cases(ctx):
                 for cls in chosen:
                     cases.append({"family": "connect", "subset": subset, "fault": [k, step, "fail:" + cls],
                                   "delays": [0] * m})
+            # an already connected protocol loses its connection while connect() is still under way
+            if k >= 1:
+                for lost in range(k if ctx.thorough else 1):
+                    for step in (0, 3):
+                        cases.append({"family": "connect", "subset": subset, "fault": [k, step, "fail"],
+                                      "delays": [0] * m, "lost": lost})
+                        if lost + 1 < k:
+                            cases.append({"family": "connect", "subset": subset, "fault": [k, step, "fail"],
+                                          "delays": [0] * m, "lost": [lost]})
             # close() of the protocols already connected returns tasks that raise / finish late
             if k >= 1:
                 modes = ["sync", "late", "raise"]
@@ -1123,7 +1200,7 @@ def gen_cases(ctx):
     #    below the stream objects: RTSP requests, pair-verify, event channel, UDP endpoints),
     #    for AirPlay 1 and AirPlay 2 receivers, alone and while another protocol holds a takeover
     names = {}
-    key = lambda op, c: (tuple(op), tuple(c if op[0] == "stream" else PLAY_CFG))
+    key = lambda op, c: (tuple(op), tuple(c if op[0] == "stream" else [True, c[1]]))
     foreigns = [[], [3], [0], [0, 1, 2, 3]]
     for op, c in variants():
         names[key(op, c)] = nm = dry_points(op, c)
